@@ -444,7 +444,7 @@ fn run_history(rng: &mut Rng, json: bool, thorough: bool, report: &Arc<Mutex<Rep
                     Ok(Err(_)) => {
                         r.count("responses_rejected", 1);
                         if a.view() != view_before {
-                            r.violation("malformed/rejected-response-changed-the-app", "the view changed although the response was rejected", replay);
+                            r.violation("malformed/rejected-response-changed-the-app", "the view changed although the response was rejected", replay.clone());
                         } else {
                             r.nontrivial(fnv64(&bytes) ^ fnv64(kind.as_bytes()) ^ hno ^ 0x55);
                         }
@@ -453,13 +453,48 @@ fn run_history(rng: &mut Rng, json: bool, thorough: bool, report: &Arc<Mutex<Rep
                             // bridges (the twin answers it properly so that both stay comparable)
                             outstanding.retain(|x| x.site != o.site);
                             drop(r);
+                            // the task that waited is cancelled by this, but only when the core next
+                            // runs: until then another rejected call must not run it either
+                            if rng.chance(1, 2) {
+                                let reg_before = a.registry_len();
+                                let view_before = a.view();
+                                // (encodings that are certainly invalid: an accepted event would run the core)
+                                let junk: Vec<(&str, Vec<u8>)> = if json {
+                                    vec![("empty", vec![]), ("json-wrong-type", b"{\"Nope\":1}".to_vec()), ("json-unbalanced", b"{\"Num\":".to_vec())]
+                                } else {
+                                    vec![("empty", vec![]), ("variant-index", vec![0xff; 4]), ("truncated", vec![0, 0, 0, 0, 9])]
+                                };
+                                let (kind2, bytes2) = &junk[rng.usize_below(junk.len())];
+                                if let Ok(Err(_)) = vcommon::trap(|| a.event(bytes2)) {
+                                    let mut r = report.lock().unwrap();
+                                    r.count("malformed_events_offered_right_after_a_rejected_response", 1);
+                                    if a.view() != view_before || a.registry_len() != reg_before {
+                                        r.violation(
+                                            "malformed/rejected-event-changed-the-app",
+                                            "the view or the registry changed although the event was rejected (work was pending from a rejected response)",
+                                            json!({"lane": "bridgefuzz", "wire": wire, "target": "event after rejected response", "mutation": kind2, "bytes_hex": hex(bytes2), "history": hno, "step": step}),
+                                        );
+                                    }
+                                }
+                            }
                             let ok = t.ser(&out_value(rng));
-                            let _ = t.response(o.id_t, &ok);
+                            let tout = t.response(o.id_t, &ok);
                             // the continuation event of the twin is not mirrored on the attacked bridge: note it
-                            // by sending the equivalent `Got` event there
+                            // by sending the equivalent `Got` event there. That call also lets the core notice
+                            // the cancelled task: whatever starts when that task ends (the second half of a
+                            // `then`, a task joining it) starts here, as it did on the twin
                             let tv = view_strings(&t);
-                            if let Some(last) = tv.last() {
-                                mirror_got(&a, last, json);
+                            let got_line = tv.iter().rev().find(|l| l.starts_with(&format!("got:{}:", o.site))).cloned();
+                            let aout = match got_line {
+                                Some(line) => mirror_got(&a, &line, json),
+                                None => None,
+                            };
+                            if let (Some(aout), Ok(tout)) = (aout, tout) {
+                                if std::env::var("BF_DEBUG").is_ok() {
+                                    eprintln!("DBG h={hno} step={step} site={} kind={kind} a={:?} t={:?} aview={:?}", o.site, a.decode(&aout), t.decode(&tout), view_strings(&a).iter().rev().take(4).collect::<Vec<_>>());
+                                }
+                                let mut r = report.lock().unwrap();
+                                absorb(&a, &t, &aout, &tout, &mut outstanding, &mut r, &replay);
                             }
                         }
                     }
@@ -486,10 +521,18 @@ fn run_history(rng: &mut Rng, json: bool, thorough: bool, report: &Arc<Mutex<Rep
         let choice = rng.below(10);
         let replay = json!({"lane": "bridgefuzz", "wire": wire, "history": hno, "step": step, "phase": "valid step after attacks"});
         let pair = if choice < 4 || outstanding.is_empty() {
-            let ev = match rng.below(6) {
+            let ev = match rng.below(8) {
                 0 | 1 => {
                     next_site += 1;
                     FEvent::Request(next_site, text(rng))
+                }
+                6 => {
+                    next_site += 1;
+                    FEvent::Chained(next_site, text(rng))
+                }
+                7 => {
+                    next_site += 1;
+                    FEvent::Spawned(next_site)
                 }
                 2 => {
                     next_site += 1;
@@ -556,11 +599,11 @@ fn view_strings(b: &B) -> Vec<String> {
 
 /// keep the attacked bridge's log comparable after the twin completed a request that the
 /// attacked bridge lost to a malformed response: replay the twin's last log line as data
-fn mirror_got(a: &B, last_line: &str, _json: bool) {
+fn mirror_got(a: &B, last_line: &str, _json: bool) -> Option<Vec<u8>> {
     // "got:site:a:slen:blen"
     let parts: Vec<&str> = last_line.split(':').collect();
     if parts.first() != Some(&"got") || parts.len() != 5 {
-        return;
+        return None;
     }
     let ev = FEvent::Got {
         site: parts[1].parse().unwrap_or(0),
@@ -568,7 +611,7 @@ fn mirror_got(a: &B, last_line: &str, _json: bool) {
         s: "x".repeat(parts[3].parse().unwrap_or(0)),
         blen: parts[4].parse().unwrap_or(0),
     };
-    let _ = a.event(&a.ser(&ev));
+    a.event(&a.ser(&ev)).ok()
 }
 
 /// decode both effect batches, compare them modulo ids, and track what is outstanding
